@@ -323,3 +323,540 @@ Proof.
     + inversion H; subst. exists [], i, e, rest. split; [reflexivity|]. split; [|reflexivity].
       apply Z.ltb_ge in E1, E2. unfold sum_len0. simpl. lia.
 Qed.
+
+(* ---------- the node put on an edge is found again ---------- *)
+Lemma split_edge_finds h fresh l1 l2 : forall t t1 H,
+  split_edge h fresh l1 l2 t = Some t1 -> ~ In fresh (ids t) ->
+  first_some (find_node h) (t_kids t) = Some H ->
+  find_node fresh t1 = Some (T fresh None None l1 [set_len l2 H]) /\ t_id t1 = t_id t /\ t_len t1 = t_len t.
+Proof.
+  induction t as [i x l e ks IH] using tree_ind'. intros t1 H Hs Hf HH. simpl in Hs. cbn [t_kids] in HH.
+  match type of Hs with option_map _ ?F = Some _ => destruct F as [ks2|] eqn:EF; [|discriminate] end.
+  cbn [option_map] in Hs. inversion Hs; subst t1. clear Hs. split; [|split; reflexivity].
+  assert (AG : forall k, In k ks -> forall pre post,
+     (if t_id k =? h then Some (pre ++ post ++ [T fresh None None l1 [set_len l2 k]])
+      else option_map (fun k' => pre ++ k' :: post) (split_edge h fresh l1 l2 k)) = None <-> find_node h k = None).
+  { intros k Hk pre post. rewrite find_node_eq.
+    destruct (t_id k =? h); [split; discriminate|].
+    rewrite <- (split_none_iff h fresh l1 l2 k).
+    destruct (split_edge h fresh l1 l2 k); simpl; split; intros; congruence. }
+  destruct (first_ctx_agree _ (find_node h) ks AG _ _ EF) as [A [k [B [Hks [EF' Hg]]]]].
+  cbn [app] in EF'. rewrite Hg in HH.
+  assert (Hi : i <> fresh) by (intro; subst; apply Hf; left; reflexivity).
+  assert (Hsub : forall c, In c ks -> ~ In fresh (ids c)).
+  { intros c Hc Hin. apply Hf. unfold ids in *. rewrite preorder_node. cbn [map]. right.
+    apply in_map_iff in Hin. destruct Hin as [y [Hy1 Hy2]]. apply in_map_iff. exists y. split; [assumption|].
+    apply in_flat_map. exists c. split; assumption. }
+  assert (HA : first_some (find_node fresh) A = None).
+  { apply first_some_none. rewrite Forall_forall. intros c Hc. apply find_node_none. apply Hsub. rewrite Hks. apply in_or_app. left; assumption. }
+  assert (HB : first_some (find_node fresh) B = None).
+  { apply first_some_none. rewrite Forall_forall. intros c Hc. apply find_node_none. apply Hsub. rewrite Hks. apply in_or_app. right; right; assumption. }
+  rewrite find_node_eq. cbn [t_id t_kids].
+  replace (i =? fresh) with false by (symmetry; apply Z.eqb_neq; assumption).
+  rewrite find_node_eq in HH.
+  destruct (t_id k =? h).
+  - inversion EF'; subst ks2. inversion HH; subst H.
+    rewrite !first_some_app, HA, HB. simpl. rewrite Z.eqb_refl. reflexivity.
+  - destruct (split_edge h fresh l1 l2 k) as [k'|] eqn:Ek; [|discriminate]. cbn [option_map] in EF'.
+    inversion EF'; subst ks2. rewrite Forall_forall in IH.
+    assert (Hkin : In k ks) by (rewrite Hks; apply in_or_app; right; left; reflexivity).
+    destruct (IH k Hkin k' H Ek (Hsub k Hkin) HH) as [HX _].
+    rewrite first_some_app, HA, first_some_cons, HX. reflexivity.
+Qed.
+
+(* ---------- suppress_unifurcations at a root with at least two children ---------- *)
+Lemma suppress_two t :
+  two_kids t -> suppress t = T (t_id t) (t_taxon t) (t_label t) (t_len t) (map suppress (t_kids t)).
+Proof.
+  destruct t as [i x l e ks]. unfold two_kids. cbn [t_kids t_id t_taxon t_label t_len].
+  destruct ks as [|k1 [|k2 r]]; cbn [length]; intros H; try lia. reflexivity.
+Qed.
+
+Lemma forall2_suppress ks : Forall2 equivT ks (map suppress ks).
+Proof. apply forall_forall2_map. rewrite Forall_forall. intros k _. apply suppress_equivT. Qed.
+
+Lemma two_kids_nonnil t : two_kids t -> t_kids t <> [].
+Proof. unfold two_kids. destruct (t_kids t); cbn [length]; [lia | discriminate]. Qed.
+
+Lemma down_kids z t : t_kids t <> [] -> down z t = downF z (t_kids t).
+Proof. destruct t as [i x l e ks]. cbn [t_kids]. apply down_node. Qed.
+
+Lemma dist_kids a b t : t_kids t <> [] -> dist a b t = distF a b (t_kids t).
+Proof. destruct t as [i x l e ks]. cbn [t_kids]. apply dist_node. Qed.
+
+Lemma leaf_taxa_kids t : t_kids t <> [] -> leaf_taxa t = ltF (t_kids t).
+Proof. destruct t as [i x l e ks]. cbn [t_kids]. apply leaf_taxa_node. Qed.
+
+Lemma post_tail z w p t1 r supp t' r' :
+  two_kids t1 -> down z t1 = Some p -> sep z w (t_kids t1) ->
+  post_reseed t1 r false supp = (t', r') ->
+  two_kids t' /\ down z t' = Some p /\ sep z w (t_kids t').
+Proof.
+  intros TK Hd HS H. unfold post_reseed in H. cbn [andb] in H. inversion H; subst. clear H.
+  destruct supp; [|auto].
+  rewrite (suppress_two _ TK). cbn [t_kids]. split; [|split].
+  - unfold two_kids in *. cbn [t_kids]. rewrite map_length. assumption.
+  - assert (Hn := two_kids_nonnil _ TK).
+    rewrite down_node by (destruct (t_kids t1); [congruence | discriminate]).
+    rewrite <- (forall2_downF z _ _ (forall2_suppress (t_kids t1))). rewrite <- down_kids by assumption. assumption.
+  - intros k' Hk'. apply in_map_iff in Hk'. destruct Hk' as [k [Hk Hin]]. subst k'.
+    rewrite suppress_leaf_taxa. apply HS. assumption.
+Qed.
+
+Lemma sep_append z w ks P :
+  sep z w ks -> NoDup (ltF (ks ++ [P])) -> In z (ltF ks) -> sep z w (ks ++ [P]).
+Proof.
+  intros HS ND Hz k Hk. apply in_app_or in Hk. destruct Hk as [Hk|[Hk|[]]]; [apply HS; assumption|].
+  subst k. intros [A _]. rewrite flat_map_app in ND. eapply (nodup_app_disj _ _ z ND); [assumption|].
+  cbn [flat_map]. apply in_or_app. left. assumption.
+Qed.
+
+Lemma some_inj {A} (a b : A) : Some a = Some b -> a = b.
+Proof. intros H; inversion H; reflexivity. Qed.
+
+Lemma ok_inj {A} (a b : A) : Ok a = Ok b -> a = b.
+Proof. intros H; inversion H; reflexivity. Qed.
+
+(* ---------- re-seeding at an internal node Y: where z ends up ---------- *)
+Lemma reseed_node_pos t r supp t' r' Y z w p :
+  NoDup (ids t) -> NoDup (leaf_taxa t) -> two_kids t ->
+  In Y (preorder t) -> t_kids Y <> [] -> down z Y = Some p -> sep z w (t_kids Y) ->
+  reseed_at t r (t_id Y) false false supp = Ok (t', r') ->
+  equivU t t' /\ two_kids t' /\ down z t' = Some p /\ sep z w (t_kids t').
+Proof.
+  intros NI ND TK HY HYk Hd HS H.
+  assert (HF : find_node (t_id Y) t = Some Y) by (apply find_node_unique; auto).
+  assert (EU : equivU t t').
+  { eapply reseed_at_equivU; eauto; [exists Y; split; assumption | cbn; discriminate]. }
+  split; [assumption|].
+  unfold reseed_at in H. apply bind_ok in H. destruct H as [t1 [H1 Hp]]. apply ok_inj in Hp. rename Hp into Hp'.
+  destruct (t_id t =? t_id Y) eqn:E.
+  - inversion H1; subst t1. rewrite find_node_eq, E in HF. inversion HF; subst Y.
+    eapply post_tail; eauto.
+  - rewrite HF in H1. destruct (rot (t_len t) (t_id Y) t []) as [t2|] eqn:ER; [|discriminate].
+    assert (HL : is_leaf Y = false) by (unfold is_leaf; destruct (t_kids Y); [congruence | reflexivity]).
+    rewrite HL in H1. cbn [andb] in H1. inversion H1; subst t1.
+    destruct (reseed_rot_equivU t _ t2 Y ER HF HYk (or_intror TK) ND) as [E1 _].
+    destruct (rot_shape _ _ _ _ _ _ ER HF) as [up [Hs [_ U2]]].
+    destruct U2 as [P [HP _]]; [apply Z.eqb_neq; assumption|]. subst up.
+    assert (ND2 := equivU_nodup _ _ E1 ND).
+    assert (Hn : t_kids Y ++ [P] <> []) by (destruct (t_kids Y); discriminate).
+    rewrite Hs in ND2. rewrite leaf_taxa_node in ND2 by assumption.
+    assert (Hzin : In z (ltF (t_kids Y))).
+    { rewrite down_kids in Hd by assumption. eapply downF_in; eauto. }
+    eapply post_tail; [| | |exact Hp']; rewrite Hs.
+    + unfold two_kids. cbn [t_kids]. rewrite app_length. cbn [length]. destruct (t_kids Y); [congruence | cbn [length]; lia].
+    + rewrite down_node by assumption. rewrite downF_app. rewrite <- down_kids by assumption. rewrite Hd. reflexivity.
+    + cbn [t_kids]. apply sep_append; assumption.
+Qed.
+
+(* ---------- putting a node on the edge above Y and re-seeding there ---------- *)
+Lemma reseed_edge_pos t r supp fresh t1 t' r' Y z w e hl tl d :
+  NoDup (ids t) -> NoDup (leaf_taxa t) -> two_kids t -> ~ In fresh (ids t) ->
+  In Y (below t) -> t_len Y = Some e -> hl + tl = e -> down z Y = Some d -> ~ In w (leaf_taxa Y) ->
+  split_edge (t_id Y) fresh (Some tl) (Some hl) t = Some t1 ->
+  reseed_at t1 r fresh false false supp = Ok (t', r') ->
+  equivU t t' /\ two_kids t' /\ down z t' = Some (hl + d) /\ sep z w (t_kids t').
+Proof.
+  intros NI ND TK FR HY HYl Hsum Hd Hw Hs H.
+  assert (HYp : In Y (preorder t)) by (rewrite preorder_below; right; assumption).
+  assert (HF : find_node (t_id Y) t = Some Y) by (apply find_node_unique; auto).
+  assert (Hne : t_id Y <> t_id t) by (apply below_id; assumption).
+  assert (HF' : first_some (find_node (t_id Y)) (t_kids t) = Some Y).
+  { rewrite find_node_eq in HF. replace (t_id t =? t_id Y) with false in HF; [assumption|].
+    symmetry. apply Z.eqb_neq. congruence. }
+  assert (E1 : equivT t t1).
+  { eapply split_edge_equivT; eauto. intros X HX. rewrite HF' in HX. inversion HX; subst X.
+    rewrite HYl. cbn [len0]. lia. }
+  destruct (split_edge_finds _ _ _ _ _ _ _ Hs FR HF') as [HN [Hid Hlen]].
+  destruct (split_edge_fresh _ _ _ _ _ _ Hs FR) as [HI HK].
+  assert (TK1 : two_kids t1) by (unfold two_kids in *; rewrite HK; assumption).
+  assert (ND1 : NoDup (leaf_taxa t1)) by (eapply equivU_nodup; [apply equivT_U; exact E1 | assumption]).
+  assert (EU : equivU t t').
+  { eapply equivU_trans; [apply equivT_U; exact E1|].
+    eapply reseed_at_equivU; eauto. cbn; discriminate. }
+  split; [assumption|].
+  assert (Hfr : t_id t1 <> fresh).
+  { rewrite Hid. intro C. apply FR. unfold ids. rewrite preorder_below. left. assumption. }
+  unfold reseed_at in H. apply bind_ok in H. destruct H as [t2 [H1 Hp]]. apply ok_inj in Hp. rename Hp into Hp'.
+  replace (t_id t1 =? fresh) with false in H1 by (symmetry; apply Z.eqb_neq; assumption).
+  rewrite HN in H1. destruct (rot (t_len t1) fresh t1 []) as [t3|] eqn:ER; [|discriminate].
+  cbn [is_leaf t_kids andb] in H1. inversion H1; subst t2.
+  destruct (reseed_rot_equivU t1 _ t3 _ ER HN ltac:(discriminate) (or_intror TK1) ND1) as [E2 _].
+  destruct (rot_shape _ _ _ _ _ _ ER HN) as [up [Hsh [_ U2]]].
+  destruct U2 as [P [HP _]]; [assumption|]. subst up. cbn [t_id t_taxon t_label t_kids] in Hsh.
+  assert (ND3 := equivU_nodup _ _ E2 ND1). rewrite Hsh in ND3.
+  rewrite leaf_taxa_node in ND3 by discriminate.
+  assert (Hzin : In z (ltF [set_len (Some hl) Y])).
+  { cbn [flat_map]. rewrite app_nil_r, set_len_leaf_taxa. eapply down_in; eauto. }
+  eapply post_tail; [| | |exact Hp']; rewrite Hsh.
+  - unfold two_kids. cbn. lia.
+  - rewrite down_node by discriminate. cbn [app]. rewrite downF_cons, set_len_downT, Hd. reflexivity.
+  - cbn [t_kids]. apply sep_append; try assumption.
+    intros k [Hk|[]]. subst k. rewrite set_len_leaf_taxa. intros [_ C]. contradiction.
+Qed.
+
+(* ---------- the walk towards the midpoint, and re-seeding where it stops ---------- *)
+Lemma chain_downF z M cz :
+  first_some (up_chain z) (t_kids M) = Some cz ->
+  exists kz, In kz (t_kids M) /\ up_chain z kz = Some cz /\ downF z (t_kids M) = Some (sum_len0 cz)
+             /\ downT z kz = Some (sum_len0 cz).
+Proof.
+  intros H.
+  assert (AG : forall c, In c (t_kids M) -> (up_chain z c = None <-> downT z c = None)).
+  { intros c Hc. rewrite up_chain_none_iff. symmetry. apply downT_none_down. }
+  destruct (first_some_agree (up_chain z) (downT z) (t_kids M) AG cz H) as [kz [Hk [Hf Hg]]].
+  exists kz. split; [assumption|]. split; [assumption|].
+  destruct (up_chain_down z kz cz Hf) as [c' [Hc' Hd]].
+  assert (E : downT z kz = Some (sum_len0 cz)).
+  { unfold downT. rewrite Hd, Hc', sum_len0_app, sum_len0_one. cbn [oadd option_map]. f_equal. lia. }
+  split; [|assumption]. unfold downF. rewrite Hg. assumption.
+Qed.
+
+Lemma mid_hit_pos t r supp fresh M z w cz p h t' r' :
+  NoDup (ids t) -> NoDup (leaf_taxa t) -> two_kids t -> ~ In fresh (ids t) ->
+  In M (preorder t) -> first_some (up_chain z) (t_kids M) = Some cz -> sep z w (t_kids M) ->
+  walk (t_id M) p cz = Ok h ->
+  match h with
+  | HitNode n => reseed_at t r n false false supp
+  | HitEdge hd hl tl => match split_edge hd fresh (Some tl) (Some hl) t with
+                        | Some t1 => reseed_at t1 r fresh false false supp
+                        | None => Err LookupErr
+                        end
+  end = Ok (t', r') ->
+  equivU t t' /\ two_kids t' /\ down z t' = Some p /\ sep z w (t_kids t').
+Proof.
+  intros NI ND TK FR HM Hz HS HW H.
+  destruct (chain_downF z M cz Hz) as [kz [Hkz [Hcz [HdF HdT]]]].
+  assert (Hzk : In z (leaf_taxa kz)) by (eapply up_chain_in; eauto).
+  assert (Hwk : ~ In w (leaf_taxa kz)) by (intro C; apply (HS kz Hkz); split; assumption).
+  assert (Hsub : forall Y, In Y (preorder kz) -> ~ In w (leaf_taxa Y)).
+  { intros Y HY C. apply Hwk. eapply leaf_taxa_sub; eauto. }
+  assert (Hkzt : forall Y, In Y (preorder kz) -> In Y (below t)).
+  { intros Y HY. eapply below_trans; [eapply kid_below; eauto | assumption]. }
+  apply walk_spec in HW. destruct h as [n|hd hl tl].
+  - destruct HW as [pre [i [e [post [Hc [Hsum Hn]]]]]].
+    destruct post as [|[q qe] post'].
+    + (* the midpoint is the mrca itself *)
+      subst n. destruct (up_chain_down z kz cz Hcz) as [c' [Hc' Hd]].
+      assert (HMk : t_kids M <> []) by (intro C; rewrite C in Hkz; contradiction).
+      apply (reseed_node_pos t r supp t' r' M z w p); try assumption.
+      rewrite down_kids by assumption. rewrite HdF, Hc, sum_len0_app, sum_len0_one. cbn [len0]. f_equal. lia.
+    + subst n.
+      assert (Hc2 : cz = (pre ++ [(i, Some e)]) ++ (q, qe) :: post') by (rewrite Hc, <- app_assoc; reflexivity).
+      destruct (up_chain_nodes z kz cz Hcz _ _ _ _ Hc2) as [Y [Y1 [Y2 [Y3 [Y4 [Y5 _]]]]]].
+      rewrite <- Y2 in H.
+      apply (reseed_node_pos t r supp t' r' Y z w p); try assumption.
+      * rewrite preorder_below. right. apply Hkzt. assumption.
+      * apply Y5. destruct pre; discriminate.
+      * rewrite Y4, sum_len0_app, sum_len0_one. cbn [len0]. f_equal. lia.
+      * intros k Hk [_ C]. apply (Hsub k); [|assumption].
+        eapply preorder_trans; [|exact Y1]. rewrite preorder_below. right. eapply kid_below; [exact Hk | apply in_preorder_self].
+  - destruct HW as [pre [e [post [Hc [Hsum Hlen]]]]].
+    destruct (up_chain_nodes z kz cz Hcz _ _ _ _ Hc) as [Y [Y1 [Y2 [Y3 [Y4 _]]]]].
+    destruct (split_edge hd fresh (Some tl) (Some hl) t) as [t1|] eqn:ES; [|discriminate].
+    rewrite <- Y2 in ES.
+    destruct (reseed_edge_pos t r supp fresh t1 t' r' Y z w e hl tl (sum_len0 pre)) as [A [B [C D]]]; try assumption.
+    + apply Hkzt. assumption.
+    + apply Hsub. assumption.
+    + split; [assumption|]. split; [assumption|]. split; [|assumption]. rewrite C. f_equal. lia.
+Qed.
+
+Lemma mid_pair t r supp fresh M z w cz cw p h t' r' :
+  NoDup (ids t) -> NoDup (leaf_taxa t) -> two_kids t -> ~ In fresh (ids t) ->
+  In M (preorder t) ->
+  first_some (up_chain z) (t_kids M) = Some cz -> first_some (up_chain w) (t_kids M) = Some cw ->
+  sep z w (t_kids M) ->
+  walk (t_id M) p cz = Ok h ->
+  match h with
+  | HitNode n => reseed_at t r n false false supp
+  | HitEdge hd hl tl => match split_edge hd fresh (Some tl) (Some hl) t with
+                        | Some t1 => reseed_at t1 r fresh false false supp
+                        | None => Err LookupErr
+                        end
+  end = Ok (t', r') ->
+  equivU t t' /\ dist z w t = Some (sum_len0 cz + sum_len0 cw)
+  /\ down z t' = Some p /\ down w t' = Some (sum_len0 cz + sum_len0 cw - p).
+Proof.
+  intros NI ND TK FR HM Hz Hw HS HW H.
+  destruct (mid_hit_pos _ _ _ _ _ _ _ _ _ _ _ _ NI ND TK FR HM Hz HS HW H) as [EU [TK' [Dz S']]].
+  destruct (chain_downF z M cz Hz) as [_ [_ [_ [HzF _]]]].
+  destruct (chain_downF w M cw Hw) as [_ [_ [_ [HwF _]]]].
+  assert (DD : dist z w t = Some (sum_len0 cz + sum_len0 cw)) by (eapply mrca_dist; eauto).
+  split; [assumption|]. split; [assumption|]. split; [assumption|].
+  assert (DD' : dist z w t' = Some (sum_len0 cz + sum_len0 cw)) by (rewrite <- (eu_dist _ _ EU); assumption).
+  destruct (dist_some_down _ _ _ _ DD') as [_ Wn].
+  destruct (down w t') as [dw|] eqn:Ew; [|congruence].
+  assert (Hn := two_kids_nonnil _ TK').
+  rewrite dist_kids in DD' by assumption. rewrite down_kids in Dz, Ew by assumption.
+  rewrite (distF_sep z w _ S' _ _ Dz Ew) in DD'. inversion DD'. f_equal. lia.
+Qed.
+
+Lemma dist_sym a b : forall t, dist a b t = dist b a t.
+Proof.
+  induction t as [i x l e ks IH] using tree_ind'. destruct ks as [|k r].
+  - simpl. rewrite andb_comm. reflexivity.
+  - rewrite !dist_node by discriminate. induction IH as [|c cs Hc _ IHcs]; [reflexivity|].
+    rewrite !distF_cons, Hc, IHcs. destruct (downT a c), (downT b c); reflexivity.
+Qed.
+
+Lemma post_reseed_rooted x coll : post_reseed x (Some true) coll false = (x, Some true).
+Proof. unfold post_reseed. cbn [not_rooted]. rewrite andb_false_r. reflexivity. Qed.
+
+Lemma midpoint_core_spec t r a b upd supp coll fresh t' r' :
+  midpoint_core t r (Some (a, b)) upd supp coll fresh = Ok (t', r') ->
+  NoDup (ids t) -> NoDup (leaf_taxa t) -> two_kids t -> ~ In fresh (ids t) -> a <> b ->
+  equivU t t' /\ exists D, dist a b t = Some D /\
+     forall q, D = 2 * q -> down a t' = Some q /\ down b t' = Some q.
+Proof.
+  unfold midpoint_core. intros H NI ND TK FR Hab.
+  destruct (negb (is_leaf t) && existsb is_none (leaf_taxa t)); [discriminate|].
+  assert (G : forall s0 s1, s0 <> s1 ->
+    match up_chain s0 t, up_chain s1 t, mrca_chains s0 s1 t with
+    | Some f0, Some f1, Some (m, c0, c1) =>
+      do d0 <- dfr f0;;
+      do d1 <- dfr f1;;
+      let chain := if d0 <? d1 then c1 else c0 in
+      let D := sum_len0 c0 + sum_len0 c1 in
+      do h <- walk m (D / 2) chain;;
+      do tr <- match h with
+               | HitNode n => reseed_at t r n false false supp
+               | HitEdge hd hl tl =>
+                 match split_edge hd fresh (Some tl) (Some hl) t with
+                 | Some t' => reseed_at t' r fresh false false supp
+                 | None => Err LookupErr
+                 end
+               end;;
+      Ok (if upd then (fst (post_reseed (fst tr) (Some true) coll false), Some true)
+          else (fst tr, Some true))
+    | _, _, _ => Err LookupErr
+    end = Ok (t', r') ->
+    equivU t t' /\ exists D, dist s0 s1 t = Some D /\
+       forall q, D = 2 * q -> down s0 t' = Some q /\ down s1 t' = Some q).
+  { clear H. intros s0 s1 Hs H.
+    destruct (up_chain s0 t) as [f0|]; [|discriminate].
+    destruct (up_chain s1 t) as [f1|]; [|discriminate].
+    destruct (mrca_chains s0 s1 t) as [[[m c0] c1]|] eqn:EM; [|discriminate].
+    apply bind_ok in H. destruct H as [d0 [_ H]].
+    apply bind_ok in H. destruct H as [d1 [_ H]].
+    cbv zeta in H.
+    apply bind_ok in H. destruct H as [h [HW H]].
+    apply bind_ok in H. destruct H as [[t1 r1] [HT H]].
+    assert (Ht' : t' = t1).
+    { destruct upd; cbn [fst] in H; [rewrite post_reseed_rooted in H|]; inversion H; reflexivity. }
+    subst t1.
+    destruct (mrca_chains_node _ _ _ _ _ _ EM) as [M [M1 [M2 [M3 [M4 M5]]]]]. subst m.
+    assert (S01 := mrca_sep s0 s1 M Hs M3).
+    destruct (d0 <? d1).
+    - destruct (mid_pair t r supp fresh M s1 s0 c1 c0 _ h t' r1 NI ND TK FR M1 M5 M4 (sep_sym _ _ _ S01) HW HT)
+        as [EU [DD [D1 D0]]].
+      split; [assumption|]. exists (sum_len0 c0 + sum_len0 c1). split; [rewrite dist_sym, DD; f_equal; lia|].
+      intros q Hq. rewrite Hq in *. replace (2 * q / 2) with q in * by (symmetry; rewrite Z.mul_comm; apply Z.div_mul; lia).
+      split; [rewrite D0; f_equal; lia | assumption].
+    - destruct (mid_pair t r supp fresh M s0 s1 c0 c1 _ h t' r1 NI ND TK FR M1 M4 M5 S01 HW HT)
+        as [EU [DD [D0 D1]]].
+      split; [assumption|]. exists (sum_len0 c0 + sum_len0 c1). split; [assumption|].
+      intros q Hq. rewrite Hq in *. replace (2 * q / 2) with q in * by (symmetry; rewrite Z.mul_comm; apply Z.div_mul; lia).
+      split; [assumption | rewrite D1; f_equal; lia]. }
+  destruct (comes_first a b (leaf_taxa t)).
+  - apply G; assumption.
+  - destruct (G b a (fun C => Hab (eq_sym C)) H) as [EU [D [DD HD]]].
+    split; [assumption|]. exists D. split; [rewrite dist_sym; assumption|].
+    intros q Hq. destruct (HD q Hq). split; assumption.
+Qed.
+
+(* ---------- doubling all lengths ---------- *)
+Lemma dbl_node i x l e ks : dbl (T i x l e ks) = T i x l (option_map (Z.mul 2) e) (map dbl ks).
+Proof. reflexivity. Qed.
+
+Lemma len0_dbl e : len0 (option_map (Z.mul 2) e) = 2 * len0 e.
+Proof. destruct e; simpl; lia. Qed.
+
+Lemma flat_map_map_ext {A B} (f g : A -> list B) (h : A -> A) l :
+  Forall (fun k => f (h k) = g k) l -> flat_map f (map h l) = flat_map g l.
+Proof. induction 1 as [|c cs Hc _ IH]; [reflexivity|]. cbn [map flat_map]. rewrite Hc, IH. reflexivity. Qed.
+
+Lemma ids_node i x l e ks : ids (T i x l e ks) = i :: flat_map ids ks.
+Proof.
+  unfold ids. rewrite preorder_node. cbn [map t_id]. f_equal.
+  induction ks as [|k r IH]; [reflexivity|]. cbn [flat_map]. rewrite map_app, IH. reflexivity.
+Qed.
+
+Lemma dbl_leaf_taxa : forall t, leaf_taxa (dbl t) = leaf_taxa t.
+Proof.
+  induction t as [i x l e ks IH] using tree_ind'. rewrite dbl_node. destruct ks as [|k r]; [reflexivity|].
+  rewrite !leaf_taxa_node by discriminate. apply flat_map_map_ext. assumption.
+Qed.
+
+Lemma dbl_ids : forall t, ids (dbl t) = ids t.
+Proof.
+  induction t as [i x l e ks IH] using tree_ind'. rewrite dbl_node, !ids_node. f_equal.
+  apply flat_map_map_ext. assumption.
+Qed.
+
+Lemma dbl_clades : forall t, clades (dbl t) = clades t.
+Proof.
+  induction t as [i x l e ks IH] using tree_ind'.
+  rewrite clades_node, <- (dbl_leaf_taxa (T i x l e ks)), dbl_node, clades_node. f_equal.
+  apply flat_map_map_ext. assumption.
+Qed.
+
+Lemma dbl_total : forall t, total_length (dbl t) = 2 * total_length t.
+Proof.
+  induction t as [i x l e ks IH] using tree_ind'. rewrite dbl_node, !total_node, len0_dbl, map_map.
+  assert (E : zsum (map (fun k => total_length (dbl k)) ks) = 2 * zsum (map total_length ks)).
+  { induction IH as [|c cs Hc _ IHc]; [reflexivity|]. cbn [map]. rewrite !zsum_cons, Hc, IHc. lia. }
+  rewrite E. lia.
+Qed.
+
+Definition odbl (o : option Z) : option Z := option_map (Z.mul 2) o.
+
+Lemma dbl_down a : forall t, down a (dbl t) = odbl (down a t).
+Proof.
+  induction t as [i x l e ks IH] using tree_ind'. rewrite dbl_node. destruct ks as [|k r].
+  - simpl. destruct (oz_eqb x a); reflexivity.
+  - rewrite !down_node by discriminate. unfold downF.
+    induction IH as [|c cs Hc _ IHc]; [reflexivity|]. cbn [map]. rewrite !first_some_cons.
+    assert (E : downT a (dbl c) = odbl (downT a c)).
+    { unfold downT. rewrite Hc. destruct c as [i' x' l' e' ks']. rewrite dbl_node. cbn [t_len]. rewrite len0_dbl.
+      destruct (down a (T i' x' l' e' ks')); cbn [oadd odbl option_map]; [f_equal; lia | reflexivity]. }
+    rewrite E. destruct (downT a c); [reflexivity | apply IHc].
+Qed.
+
+Lemma dbl_downT a c : downT a (dbl c) = odbl (downT a c).
+Proof.
+  unfold downT. rewrite dbl_down. destruct c as [i' x' l' e' ks']. rewrite dbl_node. cbn [t_len]. rewrite len0_dbl.
+  destruct (down a (T i' x' l' e' ks')); cbn [oadd odbl option_map]; [f_equal; lia | reflexivity].
+Qed.
+
+Lemma dbl_downF a ks : downF a (map dbl ks) = odbl (downF a ks).
+Proof.
+  induction ks as [|c cs IH]; [reflexivity|]. cbn [map]. rewrite !downF_cons, dbl_downT.
+  destruct (downT a c); [reflexivity | apply IH].
+Qed.
+
+Lemma dbl_dist a b : forall t, dist a b (dbl t) = odbl (dist a b t).
+Proof.
+  induction t as [i x l e ks IH] using tree_ind'. rewrite dbl_node. destruct ks as [|k r].
+  - simpl. destruct (oz_eqb x a && oz_eqb x b); reflexivity.
+  - rewrite !dist_node by discriminate.
+    induction IH as [|c cs Hc _ IHc]; [reflexivity|]. cbn [map]. rewrite !distF_cons, !dbl_downT, !dbl_downF, Hc, IHc.
+    destruct (downT a c), (downT b c); cbn [odbl option_map]; try reflexivity.
+    + destruct (downF b cs); cbn [oadd odbl option_map]; [f_equal; lia | reflexivity].
+    + destruct (downF a cs); cbn [oadd odbl option_map]; [f_equal; lia | reflexivity].
+Qed.
+
+Lemma dbl_two_kids t : two_kids t -> two_kids (dbl t).
+Proof. destruct t as [i x l e ks]. unfold two_kids. rewrite dbl_node. cbn [t_kids]. rewrite map_length. auto. Qed.
+
+Lemma dbl_usplit t S : is_usplit (dbl t) S <-> is_usplit t S.
+Proof. unfold is_usplit. rewrite dbl_clades, dbl_leaf_taxa. reflexivity. Qed.
+
+(* reroot_at_midpoint: the result (in half units) is the same unrooted tree, and the chosen pair is
+   equidistant from the new root *)
+Lemma reroot_at_midpoint_spec t r a b upd supp coll fresh t' r' :
+  reroot_at_midpoint t r (Some (a, b)) upd supp coll fresh = Ok (t', r') ->
+  NoDup (ids t) -> NoDup (leaf_taxa t) -> two_kids t -> ~ In fresh (ids t) -> a <> b ->
+  (Permutation (leaf_taxa t) (leaf_taxa t')
+   /\ (forall S, is_usplit t S <-> is_usplit t' S)
+   /\ total_length t' = 2 * total_length t
+   /\ (forall x y, dist x y t' = option_map (Z.mul 2) (dist x y t)))
+  /\ exists D, dist a b t = Some D /\ down a t' = Some D /\ down b t' = Some D.
+Proof.
+  unfold reroot_at_midpoint. intros H NI ND TK FR Hab.
+  rewrite <- dbl_ids in NI, FR. rewrite <- dbl_leaf_taxa in ND. apply dbl_two_kids in TK.
+  destruct (midpoint_core_spec _ _ _ _ _ _ _ _ _ _ H NI ND TK FR Hab) as [EU [D [DD HD]]].
+  destruct (equivU_unfold _ _ EU) as [A [B [C E]]].
+  split.
+  - rewrite dbl_leaf_taxa in A. split; [assumption|]. split; [intro S; rewrite <- B; symmetry; apply dbl_usplit|].
+    split; [rewrite C; apply dbl_total|]. intros x y. rewrite E. apply dbl_dist.
+  - rewrite dbl_dist in DD. destruct (dist a b t) as [d|] eqn:Ed; [|discriminate]. cbn [odbl option_map] in DD. apply some_inj in DD.
+    exists d. split; [reflexivity|]. apply HD. symmetry. exact DD.
+Qed.
+
+(* ---------- reroot_at_edge: where the new root is ---------- *)
+Definition Rk (a b : tree) : Prop := equivT a b /\ leaf_taxa a = leaf_taxa b.
+
+Lemma Rk_refl a : Rk a a.
+Proof. split; [apply equivT_refl | reflexivity]. Qed.
+Lemma Rk_trans a b c : Rk a b -> Rk b c -> Rk a c.
+Proof. intros [A1 A2] [B1 B2]. split; [eapply equivT_trans; eauto | congruence]. Qed.
+Lemma Rk_suppress a : Rk a (suppress a).
+Proof. split; [apply suppress_equivT | symmetry; apply suppress_leaf_taxa]. Qed.
+
+Lemma forall2_trans {A} (R : A -> A -> Prop) :
+  (forall a b c, R a b -> R b c -> R a c) ->
+  forall l1 l2 l3, Forall2 R l1 l2 -> Forall2 R l2 l3 -> Forall2 R l1 l3.
+Proof.
+  intros HT l1 l2 l3 H12. revert l3. induction H12; intros l3 H23; inversion H23; subst; constructor; eauto.
+Qed.
+
+Lemma post_shape t1 r coll supp t' r' :
+  two_kids t1 -> coll && not_rooted r = false -> post_reseed t1 r coll supp = (t', r') ->
+  t_id t' = t_id t1 /\ Forall2 Rk (t_kids t1) (t_kids t') /\ two_kids t'.
+Proof.
+  intros TK HC H. unfold post_reseed in H. rewrite HC in H. inversion H; subst. clear H.
+  destruct supp.
+  - rewrite (suppress_two _ TK). cbn [t_id t_kids]. split; [reflexivity|]. split.
+    + apply forall_forall2_map. rewrite Forall_forall. intros k _. apply Rk_suppress.
+    + unfold two_kids in *. cbn [t_kids]. rewrite map_length. assumption.
+  - split; [reflexivity|]. split; [apply forall2_refl; apply Rk_refl | assumption].
+Qed.
+
+Lemma reroot_at_edge_pos t r h l1 l2 upd supp fresh t' r' H :
+  reroot_at_edge t r h l1 l2 upd supp fresh = Ok (t', r') ->
+  find_node h t = Some H -> ~ In fresh (ids t) -> two_kids t -> NoDup (leaf_taxa t) ->
+  len0 l1 + len0 l2 = len0 (t_len H) ->
+  t_id t' = fresh /\ exists c1 c2, t_kids t' = [c1; c2]
+    /\ leaf_taxa c1 = leaf_taxa H
+    /\ (forall a, downT a c1 = oadd (len0 l2) (down a H))
+    /\ (forall a b da D, down a H = Some da -> ~ In b (leaf_taxa H) -> dist a b t = Some D ->
+          downT b c2 = Some (len0 l1 + (D - da - len0 (t_len H)))).
+Proof.
+  intros HR HF FR TK ND HL.
+  assert (EU : equivU t t').
+  { eapply reroot_at_edge_equivU; eauto. intros X HX. rewrite HF in HX. inversion HX; subst. assumption. }
+  unfold reroot_at_edge in HR. destruct (t_id t =? h) eqn:Eh; [discriminate|].
+  destruct (split_edge h fresh l1 l2 t) as [t1|] eqn:ES; [|discriminate].
+  rewrite find_node_eq, Eh in HF.
+  destruct (split_edge_finds _ _ _ _ _ _ _ ES FR HF) as [HN [Hid Hlen]].
+  destruct (split_edge_fresh _ _ _ _ _ _ ES FR) as [_ HK].
+  assert (TK1 : two_kids t1) by (unfold two_kids in *; rewrite HK; assumption).
+  assert (Hfr : t_id t1 <> fresh).
+  { rewrite Hid. intro C. apply FR. unfold ids. rewrite preorder_below. left. assumption. }
+  unfold reroot_at_node in HR. apply bind_ok in HR. destruct HR as [[t2 r2] [H1 H2]]. cbn [fst] in H2.
+  unfold reseed_at in H1. apply bind_ok in H1. destruct H1 as [t3 [H1 Hp]]. apply ok_inj in Hp.
+  replace (t_id t1 =? fresh) with false in H1 by (symmetry; apply Z.eqb_neq; assumption).
+  rewrite HN in H1. destruct (rot (t_len t1) fresh t1 []) as [t4|] eqn:ER; [|discriminate].
+  cbn [is_leaf t_kids andb] in H1. inversion H1; subst t3.
+  destruct (rot_shape _ _ _ _ _ _ ER HN) as [up [Hsh [_ U2]]].
+  destruct U2 as [P [HP _]]; [assumption|]. subst up. cbn [t_id t_taxon t_label t_kids app] in Hsh.
+  assert (TK4 : two_kids t4) by (rewrite Hsh; unfold two_kids; cbn; lia).
+  destruct (post_shape t4 r false supp t2 r2 TK4 eq_refl Hp) as [I2 [F2 TK2]].
+  assert (S3 : t_id t' = t_id t2 /\ Forall2 Rk (t_kids t2) (t_kids t') /\ two_kids t').
+  { destruct upd.
+    - apply ok_inj in H2. apply (post_shape t2 (Some true) true supp t' r' TK2 eq_refl H2).
+    - inversion H2; subst. split; [reflexivity|]. split; [apply forall2_refl; apply Rk_refl | assumption]. }
+  destruct S3 as [I3 [F3 TK3]].
+  assert (FF := forall2_trans Rk Rk_trans _ _ _ F2 F3).
+  rewrite Hsh in FF, I2. cbn [t_kids t_id] in FF, I2.
+  split; [congruence|].
+  inversion FF as [|y1 c1 l1' l2' R1 FF1 E1 E2]. subst. inversion FF1 as [|y2 c2 l1'' l2'' R2 FF2 E3 E4]. subst.
+  inversion FF2. subst.
+  exists c1, c2. split; [reflexivity|].
+  destruct R1 as [R1a R1b]. destruct R2 as [R2a R2b].
+  assert (L1 : leaf_taxa c1 = leaf_taxa H) by (rewrite <- R1b; apply set_len_leaf_taxa).
+  assert (D1 : forall a, downT a c1 = oadd (len0 l2) (down a H)).
+  { intro a. rewrite <- (et_down _ _ R1a a). apply set_len_downT. }
+  split; [assumption|]. split; [assumption|].
+  intros a b da D Ha Hb HD.
+  assert (HD' : dist a b t' = Some D) by (rewrite <- (eu_dist _ _ EU); assumption).
+  assert (Hk : t_kids t' <> []) by (apply two_kids_nonnil; assumption).
+  rewrite dist_kids in HD' by assumption.
+  match goal with E : _ = t_kids t' |- _ => rewrite <- E in HD' end.
+  rewrite distF_cons, D1, Ha in HD'. cbn [oadd option_map] in HD'.
+  assert (Nb : downT b c1 = None) by (apply downT_none; rewrite L1; assumption).
+  rewrite Nb, downF_cons, downF_nil in HD'.
+  destruct (downT b c2) as [db|]; [|discriminate]. cbn [oadd option_map] in HD'.
+  apply some_inj in HD'. f_equal. lia.
+Qed.
